@@ -101,6 +101,21 @@ pub struct TraitCase {
     pub arc: bool,
     /// another method with the identical signature is declared right after the tested one
     pub twin: bool,
+    /// the clause is `next_call(..)..n_times(2)` and the method is called twice: the second call of the
+    /// ordered range must reach matcher and answer function like the first
+    #[serde(default)]
+    pub ordered_twice: bool,
+}
+
+impl TraitCase {
+    /// `ordered_twice` needs a receiver that survives the call, no caller-visible mutation between the two
+    /// calls and a clause to quantify
+    pub fn calls_twice(&self) -> bool {
+        self.ordered_twice
+            && self.api != Api::Hidden
+            && matches!(self.recv, Recv::Ref | Recv::Mut | Recv::PinMut)
+            && !self.params.iter().any(|p| p.is_mut())
+    }
 }
 
 pub fn fnv(s: &str) -> u32 {
@@ -599,8 +614,9 @@ pub fn source(c: &TraitCase) -> String {
         } else {
             format!(".answers(&{answer})")
         };
+        let (entry, quantify) = if c.calls_twice() { ("next_call", ".n_times(2)") } else { ("each_call", "") };
         s.push_str(&format!(
-            "    let clause = {mock_fn}{with_types}\n        .each_call(&|m| m.func(|{pat}, _| {{ log(format!(\"{fmt}\"{fargs})); true }}))\n        {install};\n"
+            "    let clause = {mock_fn}{with_types}\n        .{entry}(&|m| m.func(|{pat}, _| {{ log(format!(\"{fmt}\"{fargs})); true }}))\n        {install}{quantify};\n"
         ));
         s.push_str("    let mut u = Unimock::new(clause).no_verify_in_drop();\n");
     } else {
@@ -618,6 +634,7 @@ pub fn source(c: &TraitCase) -> String {
     };
     let mut lazy = "n/a".to_string();
     let _ = &mut lazy;
+    let twice = c.calls_twice();
     let store = "std::sync::atomic::Ordering::SeqCst";
     let recv_arg: String = match c.recv {
         Recv::Ref | Recv::Mut | Recv::PinMut => {
@@ -630,6 +647,17 @@ pub fn source(c: &TraitCase) -> String {
         }
         Recv::Value => c.recv_expr().to_string(),
     };
+    if twice {
+        // first call of the ordered range
+        if c.asy == Asy::Sync {
+            s.push_str(&format!("    {{ let _first = {}; }}\n", call(&recv_arg)));
+        } else {
+            s.push_str(&format!("    {{ let _first = block_on({}); }}\n", call(&recv_arg)));
+        }
+        s.push_str("    let pre: Vec<String> = take();\n");
+    } else {
+        s.push_str("    let pre: Vec<String> = vec![];\n");
+    }
     if c.asy == Asy::Sync {
         s.push_str(&format!(
             "    let r = {};\n    let ret = format!(\"{{:?}}\", r);\n",
@@ -666,7 +694,7 @@ pub fn source(c: &TraitCase) -> String {
         "    let muts: Vec<String> = vec![{}];\n",
         muts.join(", ")
     ));
-    s.push_str("    let logv = take();\n");
+    s.push_str("    let mut logv = pre;\n    logv.extend(take());\n");
     s.push_str("    format!(\"{}\\u{1}{}\\u{1}{}\\u{1}{}\", logv.join(\"\\u{2}\"), ret, muts.join(\"\\u{2}\"), lazy)\n}\n");
     s
 }
@@ -695,6 +723,10 @@ pub fn judge(c: &TraitCase, line: &str) -> Result<CaseInfo, String> {
         Recv::Rc | Recv::Arc => "RECV|true|1".to_string(),
         _ => "RECV|true".to_string(),
     });
+    if c.calls_twice() {
+        let once = expected_log.clone();
+        expected_log.extend(once);
+    }
     let sig = c.method_sig(true);
     if log != expected_log {
         return Err(format!(
@@ -760,6 +792,7 @@ pub fn judge(c: &TraitCase, line: &str) -> Result<CaseInfo, String> {
         .class_if(c.params.contains(&Param::ImplTrait), "impl-Trait-param")
         .class_if(n >= 4, "arity>=4")
         .class_if(c.twin, "has-twin-method-of-same-signature")
+        .class_if(c.calls_twice(), "ordered-clause-n_times(2)-called-twice")
         .class_if(parts[3] == "0", "future-dropped-unpolled"))
 }
 
@@ -787,9 +820,9 @@ pub fn case_strategy() -> impl Strategy<Value = TraitCase> {
         0..3usize,
         0..3usize,
         any::<bool>(),
-        any::<bool>(),
+        (any::<bool>(), proptest::bool::weighted(0.35)),
     )
-        .prop_map(|(recv, mut params, ret_sel, mut asy, api, before, after, arc, twin)| {
+        .prop_map(|(recv, mut params, ret_sel, mut asy, api, before, after, arc, (twin, ordered_twice))| {
             // at most one impl-Trait parameter (explicit type arguments cannot name further ones portably)
             let mut seen_impl = false;
             for p in params.iter_mut() {
@@ -854,7 +887,7 @@ pub fn case_strategy() -> impl Strategy<Value = TraitCase> {
                 // Rc<Self> futures are !Send; fine, but keep the grammar to what the macro documents
                 asy = Asy::Sync;
             }
-            TraitCase { recv, params, ret, asy, api, before, after, arc, twin }
+            TraitCase { recv, params, ret, asy, api, before, after, arc, twin, ordered_twice }
         })
 }
 
